@@ -6,6 +6,12 @@
 //	bufferd random <out.ndjson> <seed> <segments> <ops>
 //	bufferd ops    <steps.json> <out.ndjson>     one explicit operation sequence (replay files), logged like random
 //
+// Watchdog: every call into the code under test runs in its own goroutine.  A
+// call that is still running after 5 s AND has burnt seconds of CPU time in the
+// meantime (these calls take microseconds; a starved process burns nothing) is
+// logged as `stuck`, its objects are abandoned, and after 3 stuck calls the
+// driver stops with what it has logged.
+//
 // Content bytes AND the bytes sitting in spare capacity behind a chunk are
 // pairwise distinct, non-zero, inside one run of operations (1..250), so a
 // byte value identifies a byte: that is what lets the re-extension check say
@@ -21,6 +27,8 @@ import (
 	"math/rand"
 	"os"
 	"strconv"
+	"syscall"
+	"time"
 	"unsafe"
 
 	"github.com/brewlin/net-protocol/pkg/buffer"
@@ -41,7 +49,8 @@ type world struct {
 	objs    []*object
 	scratch []buffer.View // the caller-owned buffer handed to Clone
 	nextb   int
-	carve   bool // the next NewVV carves its chunks out of one backing array
+	carve   bool  // the next NewVV carves its chunks out of one backing array
+	last    []obs // the objects as last read (what a stuck call started from)
 }
 
 func newWorld(scratchCap int) *world {
@@ -70,6 +79,55 @@ type obs struct {
 	caps  []int
 	// panicked: reading the object through the API panicked
 	panicked string
+}
+
+// ------------------------------------------------------------------- watchdog
+
+const (
+	stuckWall = 5 * time.Second // look at a call that has not returned after this long
+	stuckCPU  = 3 * time.Second // ... and call it stuck once it has burnt this much CPU time
+	maxStuck  = 3               // leaked spinning goroutines the driver tolerates before it stops
+)
+
+var stuckCalls int
+
+func cpuTime() time.Duration {
+	var ru syscall.Rusage
+	if err := syscall.Getrusage(syscall.RUSAGE_SELF, &ru); err != nil {
+		vh.Fatal("getrusage: %v", err)
+	}
+	return time.Duration(ru.Utime.Nano() + ru.Stime.Nano())
+}
+
+// watch runs f (calls into the code under test; panics are handled inside f) and
+// returns "" when f returned, else a note saying how long it has been running.
+// Wall-clock time alone never decides: the process must also have used CPU time
+// that only a spinning call can explain (earlier leaked spinners are discounted).
+func watch(f func()) string {
+	done := make(chan struct{})
+	go func() {
+		defer close(done)
+		f()
+	}()
+	t := time.NewTimer(stuckWall)
+	defer t.Stop()
+	cpu0, t0 := cpuTime(), time.Now()
+	for {
+		select {
+		case <-done:
+			return ""
+		case <-t.C:
+		}
+		used := cpuTime() - cpu0
+		if used >= stuckCPU*time.Duration(stuckCalls+1) {
+			stuckCalls++
+			return fmt.Sprintf("still running after %.0f s, %.0f s of CPU time burnt", time.Since(t0).Seconds(), used.Seconds())
+		}
+		if time.Since(t0) > 10*time.Minute {
+			vh.Fatal("a call neither returned nor used CPU time for 10 minutes (starved or blocked harness)")
+		}
+		t.Reset(stuckWall)
+	}
 }
 
 type viewObs struct {
@@ -120,6 +178,7 @@ func observe(o *object) (x obs) {
 
 // outcome of one operation on the real objects.
 type outcome struct {
+	stuck    string // the call never returned (watchdog note)
 	panicked string
 	isnil    bool  // Prepend returned nil
 	wlen     int   // len of the Prepend window
@@ -128,6 +187,8 @@ type outcome struct {
 	f        []int // bytes of the view returned by First
 	data     []int // bytes written into the Prepend window
 }
+
+func (o outcome) failed() bool { return o.panicked != "" || o.stuck != "" }
 
 func (w *world) fresh(n int) []byte {
 	b := make([]byte, n)
@@ -140,9 +201,19 @@ func (w *world) fresh(n int) []byte {
 
 func (w *world) add(o *object) { w.objs = append(w.objs, o) }
 
-// exec performs one operation (names = action names of spec/buffer/Buffer.tla).
+// exec performs one operation under the watchdog. After a stuck call the world belongs
+// to the goroutine that is still inside the call: the caller must abandon it.
+func (w *world) exec(op string, o, n int, lens, slack []int) outcome {
+	var out outcome
+	if note := watch(func() { out = w.execRaw(op, o, n, lens, slack) }); note != "" {
+		return outcome{stuck: note}
+	}
+	return out
+}
+
+// execRaw performs one operation (names = action names of spec/buffer/Buffer.tla).
 // o is the 1-based object slot, n the count, lens/slack describe NewVV chunks.
-func (w *world) exec(op string, o, n int, lens, slack []int) (out outcome) {
+func (w *world) execRaw(op string, o, n int, lens, slack []int) (out outcome) {
 	defer func() {
 		if r := recover(); r != nil {
 			out.panicked = fmt.Sprint(r)
@@ -313,6 +384,12 @@ func (w *world) inScratch(vs []buffer.View) (shared, known bool) {
 // is "drift".
 func compare(w *world, st map[string]interface{}, pi, si int, res *vh.Result) bool {
 	bad := false
+	snap, stuck := w.snapshot()
+	if stuck != "" {
+		res.Mismatches = append(res.Mismatches, vh.Mismatch{Path: pi, Step: si, Kind: "property",
+			What: "reading the objects after the call (ToView/Views/Size) never returns", Want: st["abs"], Got: stuck})
+		return true
+	}
 	mm := func(kind, what string, want, got interface{}) {
 		res.Mismatches = append(res.Mismatches, vh.Mismatch{Path: pi, Step: si, Kind: kind, What: what, Want: want, Got: got})
 		if kind == "property" {
@@ -329,7 +406,7 @@ func compare(w *world, st map[string]interface{}, pi, si int, res *vh.Result) bo
 	for i, o := range w.objs {
 		a := vh.Map(abs[i])
 		m := vh.Map(objs[i])
-		x := observe(o)
+		x := snap[i]
 		tag := fmt.Sprintf("object %d (%s): ", i+1, o.kind)
 		if x.panicked != "" {
 			mm("property", tag+"panic while reading the object (ToView/Views/Size)", "a byte string", x.panicked)
@@ -448,7 +525,12 @@ func graph(path string) {
 			}
 			out := w.exec(st.Act, o, n, lens, slack)
 			bad := false
-			if out.panicked != "" {
+			if out.stuck != "" {
+				// the model says the call returns and what the objects are then
+				res.Mismatches = append(res.Mismatches, vh.Mismatch{Path: pi, Step: si, Kind: "property",
+					What: "the call never returns", Want: g.States[st.Dst]["abs"], Got: out.stuck})
+				bad = true
+			} else if out.panicked != "" {
 				res.Mismatches = append(res.Mismatches, vh.Mismatch{Path: pi, Step: si, Kind: "property",
 					What: "panic in an operation the contract defines", Want: "a result", Got: out.panicked})
 				bad = true
@@ -497,10 +579,11 @@ func graph(path string) {
 		}
 		drifts += len(res.Mismatches) - len(keep)
 		res.Mismatches = keep
-		if np >= 20 {
+		if np >= 20 || stuckCalls >= maxStuck {
 			break
 		}
 	}
+	res.Extra["stuck_calls"] = stuckCalls
 	res.Extra["actions"] = acts
 	res.Extra["drift_records_dropped"] = drifts
 	vh.Emit(res)
@@ -511,12 +594,21 @@ func graph(path string) {
 const maxObjs = 8
 const maxByte = 250
 
-func (w *world) snapshot() []obs {
+// snapshot reads every live object (ToView, Views, Size, ... are code under test too:
+// same watchdog). stuck != "": a read never returned, the world is lost.
+func (w *world) snapshot() (snap []obs, stuck string) {
 	out := make([]obs, len(w.objs))
-	for i, o := range w.objs {
-		out[i] = observe(o)
+	objs := w.objs
+	stuck = watch(func() {
+		for i, o := range objs {
+			out[i] = observe(o)
+		}
+	})
+	if stuck != "" {
+		return nil, stuck
 	}
-	return out
+	w.last = out
+	return out, ""
 }
 
 // pickCount: counts biased to the interesting places - below 0, 0, the size, beyond it,
@@ -556,14 +648,27 @@ func pickCount(r *rand.Rand, size int, first int, lo int, bounds []int) int {
 }
 
 // logEvent writes one operation and what every live object looks like after it.
-// It returns false when the call (or reading the objects afterwards) panicked: the
-// sequence ends there, with a `panic` event that no action of the trace spec matches.
+// It returns false when the call (or reading the objects afterwards) panicked or never
+// returned: the sequence ends there, with a `panic` / `stuck` event that no action of the
+// trace spec matches (the byte-string spec says every one of these calls returns).
 func logEvent(tr *vh.Trace, w *world, op string, o, n int, slack []int, oc outcome, chunks [][]int) bool {
+	before := w.last
+	if before == nil {
+		before = []obs{}
+	}
+	if oc.stuck != "" {
+		tr.Log(map[string]interface{}{"ev": "stuck", "op": op, "o": o, "n": n, "msg": "the call never returns: " + oc.stuck, "before": before})
+		return false
+	}
 	if oc.panicked != "" {
 		tr.Log(map[string]interface{}{"ev": "panic", "op": op, "o": o, "n": n, "msg": oc.panicked})
 		return false
 	}
-	snap := w.snapshot()
+	snap, stuck := w.snapshot()
+	if stuck != "" {
+		tr.Log(map[string]interface{}{"ev": "stuck", "op": op, "o": o, "n": n, "msg": "reading the objects after the call never returns: " + stuck, "before": before})
+		return false
+	}
 	for i, x := range snap {
 		if x.panicked != "" {
 			tr.Log(map[string]interface{}{"ev": "panic", "op": op, "o": o, "n": n, "msg": fmt.Sprintf("reading object %d after the call: %s", i+1, x.panicked)})
@@ -611,7 +716,7 @@ func (w *world) newVV(tr *vh.Trace, lens, slack []int) outcome {
 	if slack == nil {
 		slack = []int{}
 	}
-	if !logEvent(tr, w, "NewVV", 0, 0, slack, oc, chunks) && oc.panicked == "" {
+	if !logEvent(tr, w, "NewVV", 0, 0, slack, oc, chunks) && oc.panicked == "" && oc.stuck == "" {
 		oc.panicked = "reading the objects"
 	}
 	return oc
@@ -641,7 +746,7 @@ func ops(in, out string) {
 			if len(st) > 2 {
 				slack, w.carve = slackOf(len(lens), vh.Int(st[2]))
 			}
-			ok = w.newVV(tr, lens, slack).panicked == ""
+			ok = !w.newVV(tr, lens, slack).failed()
 		case "NewView":
 			n, slack := vh.Int(st[1]), []int{0}
 			if len(st) > 2 {
@@ -665,12 +770,66 @@ func ops(in, out string) {
 	tr.Close()
 }
 
+// shapes: chunkings with empty chunks at the front, in the middle, at the end, several in
+// a row, only empty chunks, no chunk at all. Every run starts with one directed sequence
+// per shape (own arrays and carved): counts beyond the size, exactly the size, 0, RemoveFirst
+// until nothing is left and once more, on the original and on clones.
+var shapes = [][]int{{}, {0}, {0, 0}, {0, 0, 0}, {0, 2}, {2, 0}, {2, 0, 3}, {0, 0, 2}, {2, 0, 0}, {1, 0, 0, 2, 0}, {0, 3, 0, 0, 1}, {3}}
+
+func directed(tr *vh.Trace, seg int, shape []int, carve bool) {
+	w := newWorld(4)
+	tr.Log(map[string]interface{}{"ev": "reset", "seg": seg, "kind": "directed", "shape": shape, "carved": carve})
+	size := 0
+	for _, l := range shape {
+		size += l
+	}
+	var slack []int
+	if carve {
+		slack, _ = slackOf(len(shape), 1)
+	}
+	w.carve = carve
+	if w.newVV(tr, shape, slack).failed() {
+		return
+	}
+	k := len(shape)
+	type step struct {
+		op   string
+		o, n int
+	}
+	steps := []step{
+		{"VClone", 1, 0}, {"VTrim", 2, size + 1}, {"VRemoveFirst", 2, 0}, {"VRemoveFirst", 2, 0}, // 2: trimmed beyond the size
+		{"VClone", 1, 0}, {"VCap", 3, size + 1}, {"VCap", 3, size}, {"VTrim", 3, size}, {"VRemoveFirst", 3, 0},
+		{"VToView", 3, 0}, {"VFirst", 3, 0}, // 4, 5
+		{"VClone", 1, 1}, // 6: RemoveFirst until nothing is left, and once more
+	}
+	for i := 0; i <= k; i++ {
+		steps = append(steps, step{"VRemoveFirst", 6, 0})
+	}
+	steps = append(steps, step{"VTrim", 6, 1}, step{"VCap", 1, 0}, step{"VTrim", 1, 1}, step{"VRemoveFirst", 1, 0},
+		step{"VFirst", 1, 0}, step{"WToVV", 7, 0}, step{"VRemoveFirst", 8, 0}, step{"VTrim", 8, 1}, step{"VCap", 8, 1}) // 7 = nil view, 8 = its vectorised view
+	for _, st := range steps {
+		if !logEvent(tr, w, st.op, st.o, st.n, nil, w.exec(st.op, st.o, st.n, nil, nil), nil) {
+			return
+		}
+	}
+}
+
 func random(out string, seed int64, segments, nops int) {
 	tr := vh.NewTrace(out)
-	for s := 0; s < segments; s++ {
+	seg := 0
+	for _, shape := range shapes {
+		for _, carve := range []bool{false, true} {
+			if (carve && len(shape) == 0) || stuckCalls >= maxStuck {
+				continue
+			}
+			directed(tr, seg, shape, carve)
+			seg++
+		}
+	}
+	for s := 0; s < segments && stuckCalls < maxStuck; s++ {
 		r := rand.New(rand.NewSource(seed*1000003 + int64(s)))
 		w := newWorld(1 + r.Intn(8))
-		tr.Log(map[string]interface{}{"ev": "reset", "seg": s, "seed": seed})
+		tr.Log(map[string]interface{}{"ev": "reset", "seg": seg + s, "kind": "random", "seed": seed})
 		dead := false // a call panicked: the sequence ends
 		logop := func(op string, o, n int, lens, slack []int, oc outcome, chunks [][]int) {
 			if !dead && !logEvent(tr, w, op, o, n, slack, oc, chunks) {
@@ -714,10 +873,10 @@ func random(out string, seed int64, segments, nops int) {
 			}
 			w.carve = carve
 			oc := w.newVV(tr, lens, slack)
-			if oc.panicked != "" {
+			if oc.failed() {
 				dead = true
 			}
-			if fd && oc.panicked == "" { // the dispatcher caps the views to what was read
+			if fd && !oc.failed() { // the dispatcher caps the views to what was read
 				o := len(w.objs)
 				n := r.Intn(w.objs[o-1].vv.Size() + 2)
 				logop("VCap", o, n, nil, nil, w.exec("VCap", o, n, nil, nil), nil)
